@@ -282,6 +282,10 @@ func buildSCloud(exports []types.ExportSegment) ([]types.OpaqueHash, error) {
 	fullSegments := make([]types.ExportSegment, 0, len(exports)+len(pagedProof))
 	fullSegments = append(fullSegments, exports...)
 	fullSegments = append(fullSegments, pagedProof...)
+	if len(fullSegments) == 0 {
+		// no segments: every validator's segment-shard root is M_B([]) = H_0
+		return make([]types.OpaqueHash, types.TotalShards), nil
+	}
 
 	groupShards := make([][][]byte, len(fullSegments))
 	for i := range fullSegments {
